@@ -14,9 +14,10 @@ with ≈ as `Spec/Perm.lean` says.  Proved here:
   full_ln_perm             equal hit and hold lists, for ANY two sorting functions
                                                                    hyp: notes of one (time, column) are equal
   rate_perm                same multiset of rows in every list     hyp: well-formed frames (`chartOk`)
-  hitsound_copy_perm_partial   same notes; per (time, name) the same number of named samples on notes + events;
-                           the clap/finish/whistle counts are bounded by the same source counts — for ANY
-                           sorting permutations on both sides (the full multiset of (time, sound) is NOT proved)
+  hitsound_copy_perm       same notes; per (time, bit, volume) the same number of notes; per (time, name, volume) the
+                           same number of notes + event samples — i.e. the same multiset of (time, sound, volume),
+                           for ANY sorting permutations on both sides    hyp: C18's two + source volumes >= 0
+  hitsound_copy_perm_partial   the volume-free part, without the hypothesis on volumes
   counterexamples          each tie hypothesis is necessary (`*_tie_counterexample`), the code before the repair
                            of D18 (`dominant_bpm_order_counterexample`), the object-dtype bit test of N15a
 
@@ -35,6 +36,7 @@ models are not yet composed with `Perm`).
 -/
 import Reamber.Lemmas.PermInv
 import Reamber.Lemmas.PermInvConvert
+import Reamber.Lemmas.PermInvHitsound
 import Reamber.Props.C13
 import Reamber.Props.C17
 import Reamber.Props.C18
@@ -305,9 +307,8 @@ both sides (`sort_values` is not stable):
   samples (t, f) is the same on both sides (which of several named samples overflows to the event list may differ);
 * on both sides the claps / finishes / whistles at each time are bounded by the same source counts.
 
-FULL STATEMENT (not proved): the multisets of (time, clap|finish|whistle|name, volume) over notes and event samples
-together are equal.  Missing: that the number of default sounds placed per (time, volume group) is a function of
-the group's counts only — it needs an exact characterisation of `defaultsLoop` / `queue` beyond C18's bounds. -/
+The full statement (with volumes, and equality instead of the common bound for the three bits) is
+`hitsound_copy_perm` below; this one needs no hypothesis on the volumes. -/
 theorem hitsound_copy_perm_partial (σs σt σs' σt' : List Nat) (src tgt src' tgt' : Chart)
     (h : PermsOk σs σt src tgt) (h' : PermsOk σs' σt' src' tgt')
     (hsrc : HsChartPerm src src') (htgt : HsChartPerm tgt tgt')
@@ -329,7 +330,143 @@ theorem hitsound_copy_perm_partial (σs σt σs' σt' : List Nat) (src tgt src' 
     have := counts_le σs' σt' src' tgt' h' t
     simpa only [countsLeAt, cnt_perm hsrc] using this
 
-/-- N15a (open finding), the mechanism: on an object-dtype column pandas evaluates `hitsound_set & HS_CLAP` as a
+/-! ### hitsound_copy in full -/
+
+theorem concatNotes_perm {c c' : Chart} (h : HsChartPerm c c') : (concatNotes c).Perm (concatNotes c') := by
+  unfold concatNotes
+  exact (h.1.map _).append h.2
+
+theorem srcSorted_perm {σs σt σs' σt' : List Nat} {src tgt src' tgt' : Chart} (h : PermsOk σs σt src tgt)
+    (h' : PermsOk σs' σt' src' tgt') (hsrc : HsChartPerm src src') : (srcSorted σs src).Perm (srcSorted σs' src') := by
+  unfold srcSorted
+  exact ((Hitsound.gather_perm _ _ h.hs h.ls).trans ((concatNotes_perm hsrc).filter _)).trans
+    (Hitsound.gather_perm _ _ h'.hs h'.ls).symm
+
+theorem df0_perm {σs σt σs' σt' : List Nat} {src tgt src' tgt' : Chart} (h : PermsOk σs σt src tgt)
+    (h' : PermsOk σs' σt' src' tgt') (htgt : HsChartPerm tgt tgt') : (df0 σt tgt).Perm (df0 σt' tgt') := by
+  have hl : σt.length = (concatNotes (resetSamples tgt)).length := by
+    rw [h.lt]; simp [concatNotes, resetSamples]
+  have hl' : σt'.length = (concatNotes (resetSamples tgt')).length := by
+    rw [h'.lt]; simp [concatNotes, resetSamples]
+  have hr : HsChartPerm (resetSamples tgt) (resetSamples tgt') := ⟨htgt.1.map _, htgt.2.map _⟩
+  unfold df0
+  exact ((Hitsound.gather_perm _ _ h.ht hl).trans (concatNotes_perm hr)).trans (Hitsound.gather_perm _ _ h'.ht hl').symm
+
+/-- event samples `(u, f, w)` of a chart -/
+def evCnt (c : Chart) (u : Rat) (f : File) (w : Int) : Nat :=
+  c.samples.countP (fun e => e.offset == u && (e.file == f && e.volume == w))
+
+theorem evCnt_out (σs σt : List Nat) (src tgt : Chart) (u : Rat) (f : File) (w : Int) :
+    evCnt (copyWith σs σt src tgt) u f w
+      = ((queue (srcSorted σs src) u).drop ((df0 σt tgt).filter (fun n => n.offset == u)).length).countP (peFile f w) := by
+  unfold evCnt
+  rw [copyWith_eq]
+  have : ∀ (l : List Ev), l.countP (fun e => e.offset == u && (e.file == f && e.volume == w))
+      = (l.filter (fun e => e.offset == u)).countP (fun e => e.file == f && e.volume == w) := by
+    intro l
+    rw [List.countP_filter]
+    apply List.countP_congr
+    intro e _
+    simp [Bool.and_comm]
+  rw [this]
+  simp only [finalEvs_at, evsOf_countP_vol]
+
+theorem clampVol_nonneg {v : Int} (h : 0 ≤ v) : clampVol v = v := by
+  unfold clampVol
+  split <;> omega
+
+/-- **hitsound_copy, in full.**  Source and target in two row orders, ANY sorting permutations on both sides.  Then
+* the results have the same notes (time, column, length, kind) as multisets;
+* for every time `u`, every sound bit `m` (clap, finish, whistle) and every volume `w`: the same number of result notes
+  at `u` carry bit `m` at volume `w`;
+* for every time `u`, sample name `f` and volume `w`: the number of result notes at `u` carrying `f` at volume `w` plus
+  the number of event samples `(u, f, w)` is the same.
+That is: the multisets of (time, clap|finish|whistle|name, volume) over result notes and event samples together are equal
+(which of several named samples overflows to the event list may differ — it follows the row order by design of the loop).
+Hypotheses: those of C18 (target holds have a length; no source name contains `;`) and source volumes are not negative
+(a negative volume is clamped to 0 on a note but kept on an event sample, so the split would show). -/
+theorem hitsound_copy_perm (σs σt σs' σt' : List Nat) (src tgt src' tgt' : Chart)
+    (h : PermsOk σs σt src tgt) (h' : PermsOk σs' σt' src' tgt')
+    (hsrc : HsChartPerm src src') (htgt : HsChartPerm tgt tgt')
+    (hl : holdsHaveLength tgt = true) (hsep : noSep src = true) (hv : ∀ n ∈ notesOf src, 0 ≤ n.volume) :
+    (noteKeys (copyWith σs σt src tgt)).Perm (noteKeys (copyWith σs' σt' src' tgt')) ∧
+    (∀ (u : Rat) (m : Nat) (w : Int), hasBit 0 m = false →
+      cnt (fun n => hasBit n.hs m && n.volume == w) u (copyWith σs σt src tgt)
+        = cnt (fun n => hasBit n.hs m && n.volume == w) u (copyWith σs' σt' src' tgt')) ∧
+    (∀ (u : Rat) (f : File) (w : Int), f ≠ [] →
+      cnt (fun n => n.file == f && n.volume == w) u (copyWith σs σt src tgt) + evCnt (copyWith σs σt src tgt) u f w
+        = cnt (fun n => n.file == f && n.volume == w) u (copyWith σs' σt' src' tgt')
+          + evCnt (copyWith σs' σt' src' tgt') u f w) := by
+  have hS := srcSorted_perm h h' hsrc
+  have hns : NoSepL (srcSorted σs src) := noSepL_srcSorted σs σt src tgt h hsep
+  have hns' : NoSepL (srcSorted σs' src') := noSepL_srcSorted σs' σt' src' tgt' h' (noSep_perm hsrc hsep)
+  have hk : ∀ u : Rat, ((df0 σt tgt).filter (fun n => n.offset == u)).length
+      = ((df0 σt' tgt').filter (fun n => n.offset == u)).length :=
+    fun u => ((df0_perm h h' htgt).filter _).length_eq
+  -- source volumes, seen from the sorted rows
+  have hvS : ∀ (σ : List Nat) (τ : List Nat) (s t : Chart), PermsOk σ τ s t → (∀ n ∈ notesOf s, 0 ≤ n.volume) →
+      ∀ n ∈ srcSorted σ s, 0 ≤ n.volume := by
+    intro σ τ s t hp hvs n hn
+    rw [srcSorted, (Hitsound.gather_perm _ _ hp.hs hp.ls).mem_iff, List.mem_filter] at hn
+    have hn := hn.1
+    simp only [concatNotes, List.mem_append, List.mem_map] at hn
+    rcases hn with ⟨x, hx, rfl⟩ | hn
+    · exact hvs x (by simp [notesOf, hx])
+    · exact hvs n (by simp [notesOf, hn])
+  have hv' : ∀ n ∈ notesOf src', 0 ≤ n.volume := fun n hn => hv n ((notesOf_perm hsrc).mem_iff.mpr hn)
+  refine ⟨(hitsound_copy_perm_partial σs σt σs' σt' src tgt src' tgt' h h' hsrc htgt hl hsep).1, ?_, ?_⟩
+  · intro u m w hm
+    have key : ∀ (σ τ : List Nat) (s t : Chart), PermsOk σ τ s t →
+        cnt (fun n => hasBit n.hs m && n.volume == w) u (copyWith σ τ s t)
+          = ((queue (srcSorted σ s) u).take ((df0 τ t).filter (fun n => n.offset == u)).length).countP (ppBit m w) := by
+      intro σ τ s t hp
+      rw [cnt_out]
+      apply zipApply_countP _ _ _ _ _ _ (df0_at_reset σ τ s t hp u)
+      · intro r hr; simp [hr.1, hm]
+      · intro r p hr
+        cases p with
+        | dflt v vol => rfl
+        | file g vol => simp [applyP, ppBit, hr.1, hm]
+    rw [key σs σt src tgt h, key σs' σt' src' tgt' h', hk u]
+    apply queue_take_countP_dflt hS hns u
+    intro p hp
+    cases p with
+    | dflt _ _ => rfl
+    | file _ _ => simp [ppBit] at hp
+  · intro u f w hf
+    have key : ∀ (σ τ : List Nat) (s t : Chart), PermsOk σ τ s t → NoSepL (srcSorted σ s) →
+        (∀ n ∈ srcSorted σ s, 0 ≤ n.volume) →
+        cnt (fun n => n.file == f && n.volume == w) u (copyWith σ τ s t) + evCnt (copyWith σ τ s t) u f w
+          = ((srcSorted σ s).filter (fun n => n.offset == u)).countP (fun n => n.file == f && n.volume == w) := by
+      intro σ τ s t hp hnsep hvol
+      have e1 : cnt (fun n => n.file == f && n.volume == w) u (copyWith σ τ s t)
+          = ((queue (srcSorted σ s) u).take ((df0 τ t).filter (fun n => n.offset == u)).length).countP (ppFile f w) := by
+        rw [cnt_out]
+        apply zipApply_countP _ _ _ _ _ _ (df0_at_reset σ τ s t hp u)
+        · intro r hr; simp [hr.2.1, hf]
+        · intro r p hr
+          cases p with
+          | dflt v vol => simp [applyP, ppFile, hr.2.1, hf]
+          | file g vol => rfl
+      have e2 : ((queue (srcSorted σ s) u).take ((df0 τ t).filter (fun n => n.offset == u)).length).countP (ppFile f w)
+          = ((queue (srcSorted σ s) u).take ((df0 τ t).filter (fun n => n.offset == u)).length).countP (peFile f w) := by
+        apply List.countP_congr
+        intro p hp
+        have hpq := List.mem_of_mem_take hp
+        obtain ⟨n, hn, hnv⟩ := queue_vol _ u p hpq
+        cases p with
+        | dflt _ _ => simp [ppFile, peFile]
+        | file g vol =>
+          have hvol : 0 ≤ vol := by
+            have := hvol n hn
+            simp only [pVol] at hnv
+            omega
+          simp [ppFile, peFile, clampVol_nonneg hvol]
+      rw [e1, e2, evCnt_out, ← List.countP_append, List.take_append_drop, queue_peFile _ hnsep u f hf w]
+    rw [key σs σt src tgt h hns (hvS σs σt src tgt h hv), key σs' σt' src' tgt' h' hns' (hvS σs' σt' src' tgt' h' hv')]
+    exact (hS.filter _).countP_eq _
+
+/-- D40 (found as N15a, since repaired), the mechanism: on an object-dtype column pandas evaluates `hitsound_set & HS_CLAP` as a
 logical and of truth values, and `True == 2` / `False == 2` are both false — no bit is ever found -/
 def hasBitObject (hs m : Nat) : Bool := (if (hs ≠ 0 ∧ m ≠ 0) then 1 else 0) == m
 
